@@ -60,6 +60,9 @@ type streamableHTTPClientTransport struct {
 		active bool
 		ctx    context.Context
 		cancel context.CancelFunc
+		// closes counts close() calls: a handshake that was under way when the transport was closed
+		// must not open a listening stream afterwards, nobody would ever stop it.
+		closes uint64
 		mutex  sync.Mutex
 	}
 
@@ -601,6 +604,7 @@ func (t *streamableHTTPClientTransport) sendResponse(ctx context.Context, resp *
 func (t *streamableHTTPClientTransport) close() error {
 	// close GET SSE connection
 	t.getSSEConn.mutex.Lock()
+	t.getSSEConn.closes++
 	if t.getSSEConn.cancel != nil {
 		t.getSSEConn.cancel()
 		t.getSSEConn.cancel = nil
@@ -669,10 +673,15 @@ func (t *streamableHTTPClientTransport) setSessionID(sessionID string) {
 }
 
 // Establish GET SSE connection
-func (t *streamableHTTPClientTransport) establishGetSSE(parentCtx context.Context) {
+func (t *streamableHTTPClientTransport) establishGetSSE(parentCtx context.Context, closes uint64) {
 	// Get lock to ensure only one active connection
 	t.getSSEConn.mutex.Lock()
 	defer t.getSSEConn.mutex.Unlock()
+
+	// The transport was closed since the handshake began.
+	if t.getSSEConn.closes != closes {
+		return
+	}
 
 	// If there's already an active connection, cancel the old one
 	if t.getSSEConn.active && t.getSSEConn.cancel != nil {
@@ -1078,7 +1087,8 @@ func (t *streamableHTTPClientTransport) sendRequestWithStream(
 }
 
 // establishGetSSEConnection attempts to establish a GET SSE connection if enabled
-func (t *streamableHTTPClientTransport) establishGetSSEConnection(ctx context.Context) {
+// closes is the value closeCount returned when the handshake began.
+func (t *streamableHTTPClientTransport) establishGetSSEConnection(ctx context.Context, closes uint64) {
 	if !t.getSSEEnabled() {
 		t.logger.Debug("GET SSE is not enabled, will not establish GET SSE connection")
 		return
@@ -1089,5 +1099,12 @@ func (t *streamableHTTPClientTransport) establishGetSSEConnection(ctx context.Co
 		return
 	}
 
-	t.establishGetSSE(ctx)
+	t.establishGetSSE(ctx, closes)
+}
+
+// closeCount returns how many times the transport has been closed.
+func (t *streamableHTTPClientTransport) closeCount() uint64 {
+	t.getSSEConn.mutex.Lock()
+	defer t.getSSEConn.mutex.Unlock()
+	return t.getSSEConn.closes
 }
